@@ -58,6 +58,7 @@ enum resp {
 	RS_ERR_INVALID_REQ,
 	RS_ERR_UNSUPP_PDU,
 	RS_ERR_UNKNOWN_CODE,
+	RS_NOTIFY_WRONGVER_MID, /* correct answer, but a Serial Notify carrying another version follows the Cache Response */
 	RS__N
 };
 
@@ -70,15 +71,17 @@ static const char *RESP_NAME[RS__N] = {
 	"cache-response-in-version-2-then-answer-in-version-0",
 	"cut-before-end-of-data-then-timeout",
 	"err-corrupt-data", "err-invalid-request", "err-unsupported-pdu-type", "err-unknown-code(255)",
+	"serial-notify-with-other-version-inside-the-answer",
 };
 
 static int MENU[RS__N];
 static int NMENU;
 
-enum idle { I_TIMEOUT, I_NOTIFY, I_CLOSE, I_ERROR, I_STOP, I_PUBLISH, I_INTR_LATE, I__N };
+enum idle { I_TIMEOUT, I_NOTIFY, I_CLOSE, I_ERROR, I_STOP, I_PUBLISH, I_INTR_LATE, I_NOTIFY_WRONGVER, I__N };
 static const char *IDLE_NAME[I__N] = {"refresh-timeout", "serial-notify", "peer-closes", "transport-error", "stop-socket",
 				       "cache-publishes-silently,then-transport-error",
-				       "receive-interrupted-5s-after-the-deadline(process-was-suspended)"};
+				       "receive-interrupted-5s-after-the-deadline(process-was-suspended)",
+				       "serial-notify-with-other-version"};
 static int IDLE_MENU[I__N];
 static int NIDLE;
 
@@ -245,6 +248,7 @@ struct mon {
 	bool conn_has_pdu; /* a PDU was received on this connection (model side) */
 	bool expect_fast_reconnect;
 	bool refused_pending; /* a foreign-version PDU was delivered: an Error Report code 8 must follow */
+	bool refused_idle;    /* ... and it was the Serial Notify offered while ESTABLISHED */
 	unsigned int mask_before_resp;
 	/* C17 */
 	bool notify_pending; /* a Serial Notify was delivered: the next thing must be a Serial Query without sleeping */
@@ -556,6 +560,7 @@ static void respond(int kind, const struct rpdu *q)
 	case RS_CUT_ERR:
 	case RS_CUT_BEFORE_EOD:
 	case RS_WRONGVER_MID:
+	case RS_NOTIFY_WRONGVER_MID:
 	case RS_EOD_OTHER_FMT:
 		if ((kind == RS_CUT_TIMEOUT || kind == RS_CUT_ERR || kind == RS_CUT_BEFORE_EOD) && N_PUBLISHED < CFG_MAX_PUBLISH) {
 			cache_publish(&CACHE);
@@ -599,6 +604,17 @@ static void respond(int kind, const struct rpdu *q)
 				b.p[8] = b.p[8] ? 0 : 1;
 			LAST.valid = false;
 			LAST.has_eod = b.p[8 + 1] != PT_EOD ? LAST.has_eod : false;
+		}
+		if (kind == RS_NOTIFY_WRONGVER_MID && LAST.form != 'R' && b.len > 8) {
+			/* the one PDU type a client may meet at any time: no exemption from the version rule for it */
+			struct bytes nb = {0};
+
+			by_put(&nb, b.p, 8);
+			pdu_serial_notify(&nb, ver ? 0 : 1, CACHE.session, cache_cur(&CACHE)->serial);
+			by_put(&nb, b.p + 8, b.len - 8);
+			by_free(&b);
+			b = nb;
+			LAST.valid = false;
 		}
 		if (kind == RS_EOD_OTHER_FMT && LAST.form != 'R') {
 			/* rebuild: same answer, End of Data in the other version's format (version byte unchanged) */
@@ -767,7 +783,7 @@ static void respond(int kind, const struct rpdu *q)
 			LAST.valid = false;
 			LAST.refused = true;
 		}
-		if (kind == RS_WRONGVER_MID)
+		if (kind == RS_WRONGVER_MID || (kind == RS_NOTIFY_WRONGVER_MID && LAST.form != 'R'))
 			MON.refused_pending = true;
 		env_feed(b.p, b.len);
 	} else if (kind == RS_CLOSE && SOCK->request_session_id) {
@@ -889,15 +905,18 @@ static void check_query(const struct rpdu *p)
 		violation("no-reset-query-after-expiry", what);
 	}
 	if (is_prop("C13") && MON.refused_pending) {
-		snprintf(key, sizeof(key), "no-unexpected-version-report|%s", RESP_NAME[LAST.kind]);
+		const char *nm = MON.refused_idle ? IDLE_NAME[I_NOTIFY_WRONGVER] : RESP_NAME[LAST.kind];
+
+		snprintf(key, sizeof(key), "no-unexpected-version-report|%s", nm);
 		snprintf(what, sizeof(what),
 			 "a PDU carrying a version other than the negotiated one (%s) was not answered with an Unexpected-Protocol-Version (8) Error Report before the next query",
-			 RESP_NAME[LAST.kind]);
+			 nm);
 		violation(key, what);
 		MON.refused_pending = false;
 	}
+	MON.refused_idle = false;
 	if (is_prop("C13") && LAST.kind >= 0 && !LAST.valid && LAST.nbytes &&
-	    (LAST.kind == RS_WRONGVER_MID || LAST.kind == RS_HIGHER_ANSWER || LAST.kind == RS_HIGHER_CR_ONLY || LAST.kind == RS_EOD_OTHER_FMT) &&
+	    (LAST.kind == RS_WRONGVER_MID || LAST.kind == RS_NOTIFY_WRONGVER_MID || LAST.kind == RS_HIGHER_ANSWER || LAST.kind == RS_HIGHER_CR_ONLY || LAST.kind == RS_EOD_OTHER_FMT) &&
 	    (mask != MON.mask_before_resp) && mask != 0) {
 		snprintf(key, sizeof(key), "refused-content-applied|%s", RESP_NAME[LAST.kind]);
 		snprintf(what, sizeof(what), "content of a refused response (%s) was applied: records %#x, before the response %#x",
@@ -1023,6 +1042,19 @@ static int hook_recv_empty(size_t want, time_t timeout)
 			env_feed(b.p, b.len);
 			by_free(&b);
 			MON.notify_pending = true;
+			MON.conn_has_pdu = true;
+			return 0;
+		}
+		case I_NOTIFY_WRONGVER: {
+			/* C13: a Serial Notify in another version than the negotiated one, on a connection that has carried
+			 * PDUs already: to be refused with error code 8 like every other PDU */
+			struct bytes b = {0};
+
+			pdu_serial_notify(&b, SOCK->version ? 0 : 1, CACHE.session, cache_cur(&CACHE)->serial);
+			env_feed(b.p, b.len);
+			by_free(&b);
+			MON.refused_pending = true;
+			MON.refused_idle = true;
 			MON.conn_has_pdu = true;
 			return 0;
 		}
@@ -1349,7 +1381,9 @@ static void setup_menus(void)
 		menu_add(RS_EOD_OTHER_FMT);
 		menu_add(RS_HIGHER_ANSWER);
 		menu_add(RS_HIGHER_CR_ONLY);
+		menu_add(RS_NOTIFY_WRONGVER_MID);
 		menu_add(RS_TIMEOUT);
+		IDLE_MENU[NIDLE++] = I_NOTIFY_WRONGVER;
 	} else if (is_prop("C08") || is_prop("C15R")) {
 		menu_add(RS_OK_NEW);
 		menu_add(RS_CACHE_RESET);
